@@ -64,3 +64,49 @@ Proof. vm_compute. reflexivity. Qed.
 Example C18_example_kviter :
   kv_iter [0; 2; 0; 1; 97; 0; 1; 98; 0; 1; 99; 0] = ([([97], [98])], false).
 Proof. vm_compute. reflexivity. Qed.
+
+(* ======================================================================================
+   Codec pieces REGENERATED from the source on every run (go2v method translator) and proved
+   equal to the hand model above.  Gen/GenCodecs.v: thrift/arg2/kv_iterator.go
+   (NewKeyValIterator, Next, Key, Value, Remaining) and http/buf.go readVarintString /
+   writeVarintString; Gen/GenTypedBuf.v: typed.ReadBuffer.ReadBytes, NewReadBuffer,
+   NewWriteBuffer.  ReadUvarint / WriteUvarint (loops inside encoding/binary) are re-modelled
+   by hand over the generated ReadByte / WriteBytes (Model/UvarintG.v) and proved equal to
+   r_uvarint / put_uvarint.  Vocabulary: Proofs/GenTypedBufP.v (absR, absW, wfW, viewR, stepW),
+   Proofs/GenCodecsP.v (kv_result_ok: what one Next() returns against the model step kv_next:
+   io.EOF when the count is exhausted, typed.ErrEOF on a short buffer, else key / value /
+   count - 1 / rest of the buffer).
+   First clause: the generated ReadBytes equals r_bytes_go for EVERY Go int, so C18_total_bytes
+   (no slice panic, negative lengths included) is a statement about the code as it is now:
+   removing the `n < 0` test from typed/buffer.go breaks this theorem.
+   Still hand-written: http readHeaders / writeHeaders (http.Header = map[string][]string,
+   append), thrift WriteHeaders / readHeaders (typed.Reader / io), kv_iter's outer loop (it
+   is the caller's loop: Next until an error).
+   ====================================================================================== *)
+From Verif Require Import Base.GoSem Gen.GenTypedBuf Gen.GenCodecs Model.UvarintG Proofs.GenTypedBufP Proofs.GenCodecsP.
+
+Theorem C18_codecs_generated :
+  (forall g n, viewR bs_list (ReadBuffer_ReadBytes g n) = r_bytes_go n (absR g)) /\
+  (forall b, option_map absR (NewReadBuffer b) = Some (rb (bs_list b))) /\
+  (forall b, exists g, NewWriteBuffer b = Some g /\ wfW g /\ absW g = wb (bs_len b)) /\
+  (forall i, bytes_ok (bs_list (KeyValIterator_remaining i)) = true -> KeyValIterator_leftPairCount i < 2 ^ 63 ->
+     exists res, KeyValIterator_Next i = Some res /\
+                 kv_result_ok res (kv_next (KeyValIterator_leftPairCount i) (bs_list (KeyValIterator_remaining i)))) /\
+  (forall buf, bytes_ok (bs_list buf) = true ->
+     NewKeyValIterator buf =
+       if bs_len buf <? 2 then Some (kv_zero, e_io_EOF)
+       else KeyValIterator_Next (mk_KeyValIterator (rd_drop buf 2) (unbe (firstn 2 (bs_list buf))) None None)) /\
+  (forall g, viewR (fun v => v) (g_ReadUvarint g) = Some (r_uvarint (absR g))) /\
+  (forall g, viewR (fun s => s) (readVarintString g) = r_varint_string (absR g)) /\
+  (forall g s, wfW g -> zlen s < 2 ^ 64 -> stepW (writeVarintString g s) g (w_varint_string s)).
+Proof. exact codecs_generated. Qed.
+
+Print Assumptions C18_codecs_generated.
+
+(* non-vacuity: the generated iterator on the buffer of C18_example_kviter *)
+Example C18_example_generated :
+  option_map (fun p => (bs_list (KeyValIterator_key (fst p)), bs_list (KeyValIterator_val (fst p)), snd p))
+             (NewKeyValIterator (Some [0; 2; 0; 1; 97; 0; 1; 98; 0; 1; 99; 0])) = Some ([97], [98], 0) /\
+  option_map snd (match NewKeyValIterator (Some [0; 2; 0; 1; 97; 0; 1; 98; 0; 1; 99; 0]) with
+                  | Some (it, _) => KeyValIterator_Next it | None => None end) = Some e_typed_ErrEOF.
+Proof. split; vm_compute; reflexivity. Qed.
